@@ -27,4 +27,27 @@ def Pat.c01Scope : Pat → Bool
   | .seq a b => a.negFree && b.c01Scope
   | p => p.negFree
 
+/-- syntactically empty (consumes no pattern text) -/
+def Pat.isEmpty : Pat → Bool
+  | .eps => true
+  | .seq a b => a.isEmpty && b.isEmpty
+  | _ => false
+
+/-- the strict grammar gives `/` no meaning in a file-name pattern -/
+def Pat.noSlash : Pat → Bool
+  | .lit c => c != '/'
+  | .seq a b => a.noSlash && b.noSlash
+  | .alt a b => a.noSlash && b.noSlash
+  | .ext _ p => p.noSlash
+  | _ => true
+
+/-- no repeated group (`*(…)`, `+(…)`) stands at a start position (defect D1) -/
+def Pat.startSafe : Pat → Bool
+  | .seq p q => p.startSafe && (if p.isEmpty then q.startSafe else true)
+  | .alt p q => p.startSafe && q.startSafe
+  | .ext .star _ => false
+  | .ext .plus _ => false
+  | .ext _ p => p.startSafe
+  | _ => true
+
 end WcModel
